@@ -524,7 +524,10 @@ impl VariableSet {
         };
 
         // From which context should we unset?
-        let index = Self::index_of_context(scope, &self.contexts);
+        let context_index = Self::index_of_context(scope, &self.contexts);
+        // The stack has one item for each context the variable is defined in,
+        // so the position in the stack is not the same as the context index.
+        let index = stack.partition_point(|vic| vic.context_index < context_index);
 
         // Return an error if the variable is read-only.
         // Unfortunately, this code fragment does not compile because the
@@ -1172,6 +1175,27 @@ mod tests {
         let result = variables.unset("foo", Scope::Local).unwrap();
         assert_eq!(result, Some(Variable::new("D")));
         assert_eq!(variables.get("foo"), Some(&readonly_foo));
+    }
+
+    #[test]
+    fn unsetting_local_variable_not_defined_in_lower_contexts() {
+        let mut variables = VariableSet::new();
+        variables.push_context_impl(Context::default());
+        variables.push_context_impl(Context::default());
+        variables
+            .get_or_new("foo", Scope::Local)
+            .assign("A", None)
+            .unwrap();
+
+        let result = variables.unset("foo", Scope::Local).unwrap();
+        assert_eq!(result, Some(Variable::new("A")));
+        assert_eq!(variables.get("foo"), None);
+
+        // Unsetting again finds nothing (and does not panic)
+        let result = variables.unset("foo", Scope::Local).unwrap();
+        assert_eq!(result, None);
+        let result = variables.unset("foo", Scope::Volatile).unwrap();
+        assert_eq!(result, None);
     }
 
     #[test]
